@@ -1351,13 +1351,18 @@ impl From<&Color> for OkLab {
 
         // https://bottosson.github.io/posts/oklab/?#converting-from-xyz-to-oklab
 
-        // multiply with M1 and apply non-linearity
-        let long =
-            (0.8189330101 * rec.x + 0.3618667424 * rec.y + -0.1288597137 * rec.z).powf(1. / 3.);
-        let medium =
-            (0.0329845436 * rec.x + 0.9293118715 * rec.y + 0.0361456387 * rec.z).powf(1. / 3.);
-        let short =
-            (0.0482003018 * rec.x + 0.2643662691 * rec.y + 0.6338517070 * rec.z).powf(1. / 3.);
+        // multiply with M1 and apply non-linearity. For colors that are black up to rounding, the
+        // cone responses can come out as tiny negative numbers (-1e-19), whose fractional power
+        // is NaN: treat them as zero.
+        let long = (0.8189330101 * rec.x + 0.3618667424 * rec.y + -0.1288597137 * rec.z)
+            .max(0.0)
+            .powf(1. / 3.);
+        let medium = (0.0329845436 * rec.x + 0.9293118715 * rec.y + 0.0361456387 * rec.z)
+            .max(0.0)
+            .powf(1. / 3.);
+        let short = (0.0482003018 * rec.x + 0.2643662691 * rec.y + 0.6338517070 * rec.z)
+            .max(0.0)
+            .powf(1. / 3.);
 
         // multiply with M2
         let l = 0.2104542553 * long + 0.7936177850 * medium + -0.0040720468 * short;
